@@ -6,8 +6,79 @@ LEVEL = "exploration"
 ORACLES = {"c03"}
 
 
+def large_clone_task(item):
+    """Trees with clones of hundreds of data points and clones with many children (as unclustered real inputs have):
+    the densities against the reference model, and two construction histories against each other."""
+    import math
+    import random
+
+    import numpy as np
+
+    from phyclone.tree import FSCRPDistribution, Tree, TreeJointDistribution
+    from sim import models
+    from sim.models import Forest
+
+    seed, m, kids = item
+    r = random.Random(seed)
+    n = m + kids + 2
+    outl = r.random() < 0.5
+    data = bridge.make_data(r, n, samples=r.choice([1, 2]), grid=r.choice([3, 5]), style=r.choice(["flat", "narrow"]), outlier_prob=0.05 if outl else 0.0)
+    own = [frozenset(range(m))] + [frozenset([m + i]) for i in range(kids)] + [frozenset([m + kids])]
+    parent = [-1] + [0] * kids + [-1]
+    f = Forest(tuple(own), tuple(parent), frozenset([n - 1]) if outl else frozenset())
+    if not outl:
+        f = Forest(tuple(own[:-1]) + (own[-1] | {n - 1},), tuple(parent), frozenset())
+    alpha = round(math.exp(r.uniform(-2, 2)), 4)
+    td = TreeJointDistribution(FSCRPDistribution(alpha))
+    t1 = bridge.build_tree(f, data)
+    # second history: the big clone is filled one data point at a time
+    t2 = Tree(data[0].grid_size)
+    big = t2.create_root_node(children=[], data=[data[0]])
+    for d in range(1, m):
+        t2.add_data_point_to_node(data[d], big)
+    names = []
+    for i in range(kids):
+        names.append(t2.create_root_node(children=[], data=[data[m + i]]))
+    t3 = Tree.from_dict(t2.to_dict())  # children are attached to the big clone by regrafting the whole thing
+    tt = bridge.build_tree(f, data, order=list(reversed(range(len(f.own)))))
+    values = {d.idx: np.asarray(d.value) for d in data}
+    out_prior = {d.idx: ((d.outlier_prob, d.outlier_prob_not) if d.outlier_prob != 0 else None) for d in data}
+    problems = []
+    want_m = models.fscrp_log_density(f, values, data[0].grid_size[1], alpha, out_prior, "marginal")
+    want_1 = models.fscrp_log_density(f, values, data[0].grid_size[1], alpha, out_prior, "one")
+    for name, tree in (("bottom-up", t1), ("reversed-order", tt)):
+        try:
+            got = (float(td.log_p(tree)), float(td.log_p_one(tree)))
+            both = td.compute_both_log_p_and_log_p_one(tree)
+        except Exception as e:
+            problems.append(({"sub": "density_exception", "exc": type(e).__name__, "large": True}, "clone of %d data points with %d children: %r" % (m, kids, e)))
+            continue
+        for nm, g, w in (("log_p", got[0], want_m), ("log_p_one", got[1], want_1), ("both.log_p", float(both[0]), want_m), ("both.log_p_one", float(both[1]), want_1)):
+            if not (abs(g - w) <= 1e-7 + 1e-9 * abs(w)):
+                problems.append(({"sub": "model", "which": nm, "large": True}, "%s = %.10g, FS-CRP reference model gives %.10g for a clone of %d data points with %d children (%s build, alpha=%g)" % (
+                    nm, g, w, m, kids, name, alpha)))
+                break
+    try:
+        a, b = float(td.log_p_one(t2)), float(td.log_p_one(t3))
+        if abs(a - b) > 1e-7 + 1e-9 * abs(a):
+            problems.append(({"sub": "history_dependence", "large": True}, "restored copy of a tree with a %d-point clone: log_p_one %.10g vs %.10g" % (m, a, b)))
+    except Exception as e:
+        problems.append(({"sub": "density_exception", "exc": type(e).__name__, "large": True}, repr(e)))
+    return {"problems": problems[:1], "m": m, "kids": kids}
+
+
 def run(ctx):
     bridge.warm_up()
+    sizes = [(1, 40), (64, 3), (127, 0), (128, 2), (129, 1), (130, 5), (255, 0), (256, 1), (257, 2), (258, 0), (300, 130), (20, 129), (20, 257)]
+    if ctx.tier != "quick":
+        sizes += [(511, 1), (512, 2), (513, 0), (1000, 10), (1025, 3), (5, 513)]
+    from sim import runner
+
+    items = [(ctx.sub(("large", i)), m_, k_) for i, (m_, k_) in enumerate(sizes)]
+    for it, out in zip(items, runner.pmap(large_clone_task, items, timeout=1500)):
+        for key, detail in out["problems"]:
+            ctx.violation(key, detail, {"large": list(it), "key": key})
+    ctx.probe("trees_with_clones_of_hundreds_of_data_points_or_children", len(items))
     quick = ctx.tier == "quick"
     editcheck.run_histories(ctx, ORACLES, 2500 if quick else 60000)
     editcheck.run_histories(ctx, ORACLES, 24 if quick else 1200, tag="fft", fft=True)
@@ -26,4 +97,11 @@ def run(ctx):
 
 def replay(ctx, obj):
     bridge.warm_up()
+    if obj.get("large"):
+        out = large_clone_task(tuple(obj["large"]))
+        for key, detail in out["problems"]:
+            if key == obj["key"]:
+                ctx.violation(key, detail, obj)
+        ctx.cov["evaluations"] = 1
+        return
     editcheck.replay_history(ctx, obj)
